@@ -174,7 +174,32 @@ def monitor(sess, extra):
     return r
 
 
-MONITORS = {"impl-sender": monitor, "ref-sender": monitor}
+def monitor_all(sess, extra):
+    """like monitor, but every operation of the session is compared (long histories)"""
+    return monitor(sess, "all")
+
+
+def long_sessions(env, n):
+    cw = cl.CaseW()
+    g = gen.G(env.rnd)
+    for i, aead in enumerate(gen.SEAL_AEADS):
+        s = cw.session(0x0020, gen.KDFS[i], aead, sid="iL%d" % i)
+        gen.add_pair(s, g, 0x0020, i % 4 if i % 4 in (0, 1) else 0, rng=g.raw(32).hex() + "aa" * 8)
+        for j in range(n):
+            api = "inplace" if j & 1 else "alloc"
+            s.call("seal", ctx="S", api=api, pt="%06x" % j, aad="-", out="m")
+            if j % 64 in (0, 63) or j < 4:
+                if api == "alloc":
+                    s.call("open", ctx="R", api="alloc", ct="$m.full", aad="-")
+                else:
+                    s.call("open", ctx="R", api="inplace", ct="$m.ct", tag="$m.tag", aad="-")
+            elif j % 64 == 62:
+                # bring the receiver to the sender's position without opening every message
+                s.call("set_seq", ctx="R", seq=j + 1)
+    return cw.text()
+
+
+MONITORS = {"impl-sender": monitor, "ref-sender": monitor, "long": monitor_all}
 
 
 def run(env):
@@ -185,6 +210,10 @@ def run(env):
         env.require_complete(res, direction)
         env.pmap(monitor, res.sessions, workload="%s-sender" % direction)
         env.extra_cov["sessions_%s" % direction] = len(res.sessions)
+    text = long_sessions(env, env.pick(300, 70000))
+    res = env.drive("long", text)
+    env.require_complete(res, "long")
+    env.pmap(monitor_all, res.sessions, workload="long")
     cells = {(d[0], d[1], d[2]) for d in env.distinct}
     env.extra_cov["direction_suite_mode_cells"] = len(cells)
     if len(cells) < 2 * 192 and not env.violations:
